@@ -699,7 +699,67 @@ def decl_program():
     return {"functions": F}
 
 
+def genctx_program():
+    """Generators suspended while their caller carries on (C09)."""
+    F = [
+        fn("g", ["p"], [["bind", "a", V], use("a"), ["ret", var("a")]]),
+        fn(
+            "gen",
+            ["p"],
+            [
+                ["bind", "x", V],
+                [
+                    "while",
+                    [
+                        ["pick", [[["bind", "r", ["call", "g", [V]]]], [["bind", "x", V]], [["pass"]]]],
+                        ["yield", var("x"), None],
+                    ],
+                ],
+                ["bind", "r", ["call", "g", [V]]],
+            ],
+        ),
+        fn(
+            "gen2",
+            ["p"],
+            [
+                ["bind", "y", V],
+                ["for", "i", [["bind", "r", ["call", "g", [var("i")]]], ["yield", var("i"), None]], []],
+            ],
+        ),
+        # driver: an instrumented function that itself drives generators and calls g
+        fn(
+            "D",
+            ["p"],
+            [
+                ["bind", "d", V],
+                ["bind", "it", ["call", "gen", [V]]],
+                ["bind", "it2", ["call", "gen2", [V]]],
+                [
+                    "while",
+                    [
+                        [
+                            "pick",
+                            [
+                                [["bind", "r", ["next", "it"]]],
+                                [["bind", "r", ["next", "it2"]]],
+                                [["bind", "r", ["call", "g", [V]]]],
+                                [["close", "it"]],
+                                [["close", "it2"]],
+                                [["bind", "d", V]],
+                            ],
+                        ]
+                    ],
+                ],
+                ["bind", "r", ["call", "g", [V]]],
+                ["ret", var("d")],
+            ],
+        ),
+    ]
+    return {"functions": F}
+
+
 PROGRAMS = {
+    "genctx": genctx_program,
     "decl": decl_program,
     "reg": reg_program,
     "recv": recv_program,
